@@ -171,14 +171,15 @@ pub fn nodeid_cmd(t: &[&str]) -> String {
             let from: NodeId = a.into();
             let ser = serde_json::to_string(&n).unwrap();
             format!(
-                "raw={} asref={} from={} eqraw={} ser={} disp={} dbg={}",
+                "raw={} asref={} from={} eqraw={} ser={} disp={} dbg={} dbgp={}",
                 hx(&n.raw()),
                 hx(n.as_ref()),
                 hx(&from.raw()),
                 (n == a && n == from && n.clone() == n) as u8,
                 hx(ser.as_bytes()),
                 hx(format!("{n}").as_bytes()),
-                hx(format!("{n:?}").as_bytes())
+                hx(format!("{n:?}").as_bytes()),
+                hx(format!("{n:#?}").as_bytes())
             )
         }
         "deser" => {
